@@ -39,5 +39,8 @@ package extra25519
 //@   loop 3 invariant forall i2 int trigger c[i2] :: 0 <= i2 && i2 < 7 && c[i2] != 0 ==> (exists j2 int :: 0 <= j2 && j2 < 31 && ge[j2] != edBlacklist[i2][j2]) || (i2 < i && ge[31] % 128 != edBlacklist[i2][31])
 //@   loop 4 invariant 0 <= rangeiter && rangeiter < 7 && (k == -1 || (0 <= k && k <= 255)) && ((k == -1) <==> (exists i3 int :: 0 <= i3 && i3 < rangeiter && c[i3] == 0))
 //@   loop 4 invariant forall i2 int trigger c[i2] :: 0 <= i2 && i2 < 7 ==> 0 <= c[i2] && c[i2] <= 255 && ((c[i2] == 0) <==> agree(ge, i2))
+//@   assert at exit: forall i2 int trigger c[i2] :: 0 <= i2 && i2 < 7 ==> ((c[i2] == 0) <==> agree(ge, i2))
+//@   assert at exit: forall i2 int trigger edBlacklist[i2][31] :: 0 <= i2 && i2 < 7 && agree(ge, i2) ==> c[i2] == 0
+//@   assert at exit: ret <==> (exists i3 int :: 0 <= i3 && i3 < 7 && c[i3] == 0)
 //@   ensures ret ==> (exists i int :: 0 <= i && i < 7 && agree(ge, i))
 //@   ensures (exists i int :: 0 <= i && i < 7 && agree(ge, i)) ==> ret
